@@ -316,6 +316,14 @@ def run_check(pid, tier, seed):
             if getattr(prop, "HEAP_SUMMARY", False) and not any(o.get("op") == "heap.summary" for o in ops):
                 # reference-level observation at the end of the program: which user-held objects share cells
                 names = sorted({o[k] for o in ops for k in ("id", "to") if isinstance(o.get(k), str)})
+                if tier == "thorough":
+                    # ... and after every tenth op on the way
+                    mixed = []
+                    for i, o in enumerate(ops):
+                        mixed.append(o)
+                        if i % 10 == 9:
+                            mixed.append({"op": "heap.summary", "vars": names})
+                    ops = mixed
                 ops = list(ops) + [{"op": "heap.summary", "vars": names}]
             handle(ops, f"gen seed={seed} case={ci}")
             if len(violations) >= 3:
